@@ -571,7 +571,7 @@ func (c *Client) completeCPP(
 	prop ChannelProposal,
 	acc ChannelProposalAccept,
 	partIdx channel.Index,
-) (*Channel, error) {
+) (_ *Channel, err error) {
 	propBase := prop.Base()
 	params := channel.NewParamsUnsafe(
 		propBase.ChallengeDuration,
@@ -588,7 +588,6 @@ func (c *Client) completeCPP(
 	}
 
 	accounts := make(map[wallet.BackendID]wallet.Account)
-	var err error
 	for i, wall := range c.wallet {
 		accounts[i], err = wall.Unlock(params.Parts[partIdx][i])
 		if err != nil {
@@ -610,6 +609,14 @@ func (c *Client) completeCPP(
 	// If subchannel proposal receiver, setup register funding update.
 	if prop.Type() == wire.SubChannelProposal && partIdx == ProposeeIdx {
 		parent.registerSubChannelFunding(ch.ID(), propBase.InitBals.Balances)
+		// The funding update is awaited only after the channel has been set up.
+		// If that fails, nobody would ever take a matching update from the
+		// interceptor and its handler would block with the parent locked.
+		defer func() {
+			if err != nil {
+				parent.subChannelFundings.Release(ch.ID())
+			}
+		}()
 	}
 
 	if err := c.pr.ChannelCreated(ctx, ch.machine, peers, parentChannelID); err != nil {
